@@ -375,7 +375,8 @@ class FamilyRun:
                 out = ("new", p, h)
         elif k == "acq":
             p, h = ev[1], ev[2]
-            if self._ok(p) and h in self.procs[p]["handles"]:
+            # an acquire through a handle that already reports is_held() (re-entrant use of one FileLock) is not generated
+            if self._ok(p) and h in self.procs[p]["handles"] and self.procs[p]["held"].get(h) is not True:
                 out = self._acq(p, h, ev)
         elif k == "rel":
             p, h = ev[1], ev[2]
